@@ -396,5 +396,18 @@ def run(repo, check):
     r7 = c09.rule_r1(repo, 'C07.R7')
     r7.title = 'coder / wirer lockstep (shared with C09.R1): attributes attach to the right flat entries only if both sides count alike'
     check.add(r7)
+    from sa.rules import c06, c08
+    r8 = c06.rule_r1(repo)
+    r8.rule = 'C07.R8'
+    r8.title = 'bitmap and back-reference bookkeeping is re-initialised for every subset (shared with C06.R1)'
+    for f in r8.findings:
+        f.rule = 'C07.R8'
+    check.add(r8)
+    r9 = c08.rule_r6(repo, 'quick', only_bitmap=True)
+    r9.rule = 'C07.R9'
+    r9.title = 'compiled templates keep the bitmap bookkeeping of the plain walk (bitmap templates of C08.R6)'
+    for f in r9.findings:
+        f.rule = 'C07.R9'
+    check.add(r9)
     check.assumptions = ['each primitive appends exactly one flat entry (C01.R3), so the k-th emission is flat index k',
                          'which element a given bitmap designates in a given message is a runtime fact; the rules decide the mechanism']
